@@ -42,7 +42,7 @@ pub fn load_from_string(
         ));
     }
 
-    let version: i32 = version_opt.unwrap().as_i64().unwrap().try_into().unwrap();
+    let version: i32 = jtoken_to_i32(version_opt.unwrap(), "inkVersion")?; // unwrap: checked for none above
 
     if version > INK_VERSION_CURRENT {
         return Err(StoryError::BadJson(
@@ -97,10 +97,13 @@ pub fn jtoken_to_runtime_object(
         serde_json::Value::Bool(value) => Ok(Rc::new(Value::new::<bool>(value.to_owned()))),
         serde_json::Value::Number(_) => {
             if token.is_i64() {
-                let val: i32 = token.as_i64().unwrap().try_into().unwrap();
+                let val: i32 = jtoken_to_i32(token, "integer value")?;
                 Ok(Rc::new(Value::new::<i32>(val)))
             } else {
-                let val: f32 = token.as_f64().unwrap() as f32;
+                let val: f32 = token
+                    .as_f64()
+                    .ok_or_else(|| bad_json_value("number", token))?
+                    as f32;
                 Ok(Rc::new(Value::new::<f32>(val)))
             }
         }
@@ -109,7 +112,10 @@ pub fn jtoken_to_runtime_object(
             let str = value.as_str();
 
             // String value
-            let first_char = str.chars().next().unwrap();
+            let first_char = str
+                .chars()
+                .next()
+                .ok_or_else(|| bad_json_value("runtime object", token))?;
             if first_char == '^' {
                 return Ok(Rc::new(Value::new::<&str>(&str[1..])));
             } else if first_char == '\n' && str.len() == 1 {
@@ -162,12 +168,12 @@ pub fn jtoken_to_runtime_object(
             let prop_value = obj.get("^var");
 
             if let Some(v) = prop_value {
-                let variable_name = v.as_str().unwrap();
+                let variable_name = jtoken_to_str(v, "^var")?;
                 let mut contex_index = -1;
                 let prop_value = obj.get("ci");
 
                 if let Some(v) = prop_value {
-                    contex_index = v.as_i64().unwrap() as i32;
+                    contex_index = jtoken_to_i32(v, "ci")?;
                 }
 
                 let var_ptr = Rc::new(Value::new_variable_pointer(variable_name, contex_index));
@@ -209,7 +215,8 @@ pub fn jtoken_to_runtime_object(
             }
 
             if is_divert {
-                let target = prop_value.unwrap().as_str().unwrap().to_string();
+                // unwrap: is_divert is only set when prop_value is some
+                let target = jtoken_to_str(prop_value.unwrap(), "divert target")?.to_string();
 
                 let mut var_divert_name: Option<String> = None;
                 let mut target_path: Option<String> = None;
@@ -229,7 +236,7 @@ pub fn jtoken_to_runtime_object(
                 if external {
                     prop_value = obj.get("exArgs");
                     if let Some(prop_value) = prop_value {
-                        external_args = prop_value.as_i64().unwrap() as usize;
+                        external_args = jtoken_to_usize(prop_value, "exArgs")?;
                     }
                 }
 
@@ -248,28 +255,30 @@ pub fn jtoken_to_runtime_object(
             let prop_value = obj.get("*");
             if let Some(cp) = prop_value {
                 let mut flags = 0;
-                let path_string_on_choice = cp.as_str().unwrap();
+                let path_string_on_choice = jtoken_to_str(cp, "*")?;
                 let prop_value = obj.get("flg");
                 if let Some(f) = prop_value {
-                    flags = f.as_u64().unwrap();
+                    flags = f
+                        .as_u64()
+                        .and_then(|f| i32::try_from(f).ok())
+                        .ok_or_else(|| bad_json_value("flg", f))?;
                 }
 
-                return Ok(Rc::new(ChoicePoint::new(
-                    flags as i32,
-                    path_string_on_choice,
-                )));
+                return Ok(Rc::new(ChoicePoint::new(flags, path_string_on_choice)));
             }
 
             // // Variable reference
             let prop_value = obj.get("VAR?");
             if let Some(name) = prop_value {
-                return Ok(Rc::new(VariableReference::new(name.as_str().unwrap())));
+                return Ok(Rc::new(VariableReference::new(jtoken_to_str(
+                    name, "VAR?",
+                )?)));
             }
 
             let prop_value = obj.get("CNT?");
             if let Some(v) = prop_value {
                 return Ok(Rc::new(VariableReference::from_path_for_count(
-                    v.as_str().unwrap(),
+                    jtoken_to_str(v, "CNT?")?,
                 )));
             }
 
@@ -293,7 +302,8 @@ pub fn jtoken_to_runtime_object(
             }
 
             if is_var_ass {
-                let var_name = prop_value.unwrap().as_str().unwrap();
+                // unwrap: is_var_ass is only set when prop_value is some
+                let var_name = jtoken_to_str(prop_value.unwrap(), "variable assignment")?;
                 let prop_value = obj.get("re");
                 let is_new_decl = prop_value.is_none();
 
@@ -308,32 +318,32 @@ pub fn jtoken_to_runtime_object(
             // Legacy Tag
             prop_value = obj.get("#");
             if let Some(prop_value) = prop_value {
-                return Ok(Rc::new(Tag::new(prop_value.as_str().unwrap())));
+                return Ok(Rc::new(Tag::new(jtoken_to_str(prop_value, "#")?)));
             }
 
             // List value
             prop_value = obj.get("list");
 
             if let Some(pv) = prop_value {
-                let list_content = pv.as_object().unwrap();
+                let list_content = pv.as_object().ok_or_else(|| bad_json_value("list", pv))?;
                 let mut raw_list = InkList::new();
 
                 prop_value = obj.get("origins");
 
                 if let Some(o) = prop_value {
-                    let names_as_objs = o.as_array().unwrap();
+                    let names_as_objs = o.as_array().ok_or_else(|| bad_json_value("origins", o))?;
 
                     let names = names_as_objs
                         .iter()
-                        .map(|e| e.as_str().unwrap().to_string())
-                        .collect();
+                        .map(|e| jtoken_to_str(e, "origins").map(|s| s.to_string()))
+                        .collect::<Result<Vec<String>, StoryError>>()?;
 
                     raw_list.set_initial_origin_names(names);
                 }
 
                 for (k, v) in list_content {
                     let item = InkListItem::from_full_name(k);
-                    raw_list.items.insert(item, v.as_i64().unwrap() as i32);
+                    raw_list.items.insert(item, jtoken_to_i32(v, "list item")?);
                 }
 
                 return Ok(Rc::new(Value::new::<InkList>(raw_list)));
@@ -360,7 +370,12 @@ fn jarray_to_container(
     //  - named content
     //  - a "#f" key with the countFlags
     // (if either exists at all, otherwise null)
-    let terminating_obj = jarray[jarray.len() - 1].as_object();
+    let terminating_obj = jarray
+        .last()
+        .ok_or_else(|| {
+            StoryError::BadJson("Container array has no terminating element".to_owned())
+        })?
+        .as_object();
     let mut name: Option<String> = name;
     let mut flags = 0;
 
@@ -369,16 +384,17 @@ fn jarray_to_container(
     if let Some(terminating_obj) = terminating_obj {
         for (k, v) in terminating_obj {
             match k.as_str() {
-                "#f" => flags = v.as_i64().unwrap().try_into().unwrap(),
-                "#n" => name = Some(v.as_str().unwrap().to_string()),
+                "#f" => flags = jtoken_to_i32(v, "#f")?,
+                "#n" => name = Some(jtoken_to_str(v, "#n")?.to_string()),
                 k => {
-                    let named_content_item =
-                        jtoken_to_runtime_object(v, Some(k.to_string())).unwrap();
+                    let named_content_item = jtoken_to_runtime_object(v, Some(k.to_string()))?;
 
                     let named_sub_container = named_content_item
                         .into_any()
                         .downcast::<Container>()
-                        .unwrap();
+                        .map_err(|_| {
+                            StoryError::BadJson(format!("Named content '{}' is not a container", k))
+                        })?;
 
                     named_only_content.insert(k.to_string(), named_sub_container);
                 }
@@ -402,7 +418,7 @@ pub fn jarray_to_runtime_obj_list(
     let mut count = jarray.len();
 
     if skip_last {
-        count -= 1;
+        count = count.saturating_sub(1);
     }
 
     let mut list: Vec<Rc<dyn RTObject>> = Vec::with_capacity(jarray.len());
@@ -416,12 +432,20 @@ pub fn jarray_to_runtime_obj_list(
 }
 
 fn jobject_to_choice(obj: &Map<String, serde_json::Value>) -> Result<Rc<dyn RTObject>, StoryError> {
-    let text = obj.get("text").unwrap().as_str().unwrap();
-    let index = obj.get("index").unwrap().as_u64().unwrap() as usize;
-    let source_path = obj.get("originalChoicePath").unwrap().as_str().unwrap();
-    let original_thread_index = obj.get("originalThreadIndex").unwrap().as_i64().unwrap() as usize;
-    let path_string_on_choice = obj.get("targetPath").unwrap().as_str().unwrap();
-    let choice_tags = jarray_to_tags(obj);
+    let get = |key: &str| {
+        obj.get(key)
+            .ok_or_else(|| StoryError::BadJson(format!("Choice without '{}'", key)))
+    };
+    let text = jtoken_to_str(get("text")?, "text")?;
+    let index = get("index")?
+        .as_u64()
+        .and_then(|i| usize::try_from(i).ok())
+        .ok_or_else(|| StoryError::BadJson("Invalid choice index".to_owned()))?;
+    let source_path = jtoken_to_str(get("originalChoicePath")?, "originalChoicePath")?;
+    let original_thread_index =
+        jtoken_to_usize(get("originalThreadIndex")?, "originalThreadIndex")?;
+    let path_string_on_choice = jtoken_to_str(get("targetPath")?, "targetPath")?;
+    let choice_tags = jarray_to_tags(obj)?;
     let is_invisible_default = obj
         .get("isInvisibleDefault")
         .and_then(|v| v.as_bool())
@@ -438,18 +462,18 @@ fn jobject_to_choice(obj: &Map<String, serde_json::Value>) -> Result<Rc<dyn RTOb
     )))
 }
 
-fn jarray_to_tags(obj: &Map<String, serde_json::Value>) -> Vec<String> {
+fn jarray_to_tags(obj: &Map<String, serde_json::Value>) -> Result<Vec<String>, StoryError> {
     let mut tags: Vec<String> = Vec::new();
 
     let prop_value = obj.get("tags");
     if let Some(pv) = prop_value {
-        let tags_array = pv.as_array().unwrap();
+        let tags_array = pv.as_array().ok_or_else(|| bad_json_value("tags", pv))?;
         for tag in tags_array {
-            tags.push(tag.as_str().unwrap().to_string());
+            tags.push(jtoken_to_str(tag, "tags")?.to_string());
         }
     }
 
-    tags
+    Ok(tags)
 }
 
 pub fn jtoken_to_list_definitions(
@@ -457,11 +481,18 @@ pub fn jtoken_to_list_definitions(
 ) -> Result<ListDefinitionsOrigin, StoryError> {
     let mut all_defs: Vec<ListDefinition> = Vec::with_capacity(0);
 
-    for (name, list_def_json) in def.as_object().unwrap() {
+    let def = def
+        .as_object()
+        .ok_or_else(|| bad_json_value("listDefs", def))?;
+
+    for (name, list_def_json) in def {
         // Cast (string, object) to (string, int) for items
         let mut items: HashMap<String, i32> = HashMap::new();
-        for (k, v) in list_def_json.as_object().unwrap() {
-            items.insert(k.clone(), v.as_u64().unwrap() as i32);
+        let list_def_json = list_def_json
+            .as_object()
+            .ok_or_else(|| bad_json_value("list definition", list_def_json))?;
+        for (k, v) in list_def_json {
+            items.insert(k.clone(), jtoken_to_i32(v, "list definition item")?);
         }
 
         let def = ListDefinition::new(name.clone(), items);
@@ -482,7 +513,7 @@ pub(crate) fn jobject_to_hashmap_values(
             jtoken_to_runtime_object(v, None)?
                 .into_any()
                 .downcast::<Value>()
-                .unwrap(),
+                .map_err(|_| bad_json_value("variable value", v))?,
         );
     }
 
@@ -495,8 +526,33 @@ pub(crate) fn jobject_to_int_hashmap(
     let mut dict: HashMap<String, i32> = HashMap::new();
 
     for (k, v) in jobj.iter() {
-        dict.insert(k.clone(), v.as_i64().unwrap() as i32);
+        dict.insert(k.clone(), jtoken_to_i32(v, k)?);
     }
 
     Ok(dict)
+}
+
+fn bad_json_value(what: &str, token: &serde_json::Value) -> StoryError {
+    StoryError::BadJson(format!("Invalid value for {}: {}", what, token))
+}
+
+pub(crate) fn jtoken_to_str<'a>(
+    token: &'a serde_json::Value,
+    what: &str,
+) -> Result<&'a str, StoryError> {
+    token.as_str().ok_or_else(|| bad_json_value(what, token))
+}
+
+pub(crate) fn jtoken_to_i32(token: &serde_json::Value, what: &str) -> Result<i32, StoryError> {
+    token
+        .as_i64()
+        .and_then(|n| i32::try_from(n).ok())
+        .ok_or_else(|| bad_json_value(what, token))
+}
+
+pub(crate) fn jtoken_to_usize(token: &serde_json::Value, what: &str) -> Result<usize, StoryError> {
+    token
+        .as_i64()
+        .and_then(|n| usize::try_from(n).ok())
+        .ok_or_else(|| bad_json_value(what, token))
 }
